@@ -269,6 +269,33 @@ func c29ConsTerms(thorough bool) *c29Terms {
 		l1 = append(l1, structOf([]fld{{name: "A", t: b}}, 1), structOf([]fld{{name: "A", t: b, tag: `json:"a"`}, {name: "B", t: bs[0]}}, 1),
 			structOf([]fld{{name: "a", t: b}}, 1), named("N_"+strings.Map(c29Ident, b.key), b, 1))
 	}
+	// struct tags: every pattern of tagged / untagged fields over 3 fields (exported: exact; first field unexported:
+	// emulated) and the gap patterns over 4 fields, ONE tag string, so that a tag slipping to a neighbouring field
+	// turns one term into another; plus the pair with different tag strings
+	for mask := 0; mask < 8; mask++ {
+		for _, first := range []string{"A", "a"} {
+			fs := []fld{{name: first, t: bs[0]}, {name: "B", t: bs[1]}, {name: "C", t: bs[0]}}
+			for i := range fs {
+				if mask&(1<<uint(i)) != 0 {
+					fs[i].tag = `k:"v"`
+				}
+			}
+			l1 = append(l1, structOf(fs, 1))
+		}
+	}
+	for _, mask := range []int{9, 5, 10, 11, 13, 7, 14} {
+		fs := []fld{{name: "A", t: bs[0]}, {name: "B", t: bs[0]}, {name: "C", t: bs[0]}, {name: "D", t: bs[0]}}
+		for i := range fs {
+			if mask&(1<<uint(i)) != 0 {
+				fs[i].tag = `k:"v"`
+			}
+		}
+		l1 = append(l1, structOf(fs, 1))
+	}
+	l1 = append(l1, structOf([]fld{{name: "A", t: bs[0], tag: `k:"a"`}, {name: "B", t: bs[0]}, {name: "C", t: bs[0], tag: `k:"c"`}}, 1),
+		structOf([]fld{{name: "A", t: bs[0], tag: `k:"a"`}, {name: "B", t: bs[0], tag: `k:"c"`}, {name: "C", t: bs[0]}}, 1),
+		structOf([]fld{{name: "A", t: bs[0], tag: `k:"a"`}, {emb: true, t: bs[6]}, {name: "C", t: bs[0], tag: `k:"c"`}}, 1),
+		structOf([]fld{{name: "A", t: bs[0], tag: `k:"a"`}, {emb: true, t: bs[6], tag: `k:"c"`}, {name: "C", t: bs[0]}}, 1))
 	l1 = append(l1, structOf(nil, 1), structOf([]fld{{emb: true, t: bs[6]}, {name: "X", t: bs[0]}}, 1), structOf([]fld{{emb: true, t: bs[7]}}, 1),
 		// the same name declared twice with different underlying types: two different types
 		named("Dup", bs[0], 1), ts.add(&c29Term{key: "named(Dup,string)#2", level: 1, build: func(u *c29U) xr.Type {
@@ -364,6 +391,7 @@ func (k *c29Checker) consCheck(ts *c29Terms, order string, only string) {
 			list[len(list)-1-i] = t
 		}
 	}
+	firstObj := map[string]xr.Type{}
 	for ti, t := range list {
 		if only != "" && t.key != only {
 			continue
@@ -391,6 +419,7 @@ func (k *c29Checker) consCheck(ts *c29Terms, order string, only string) {
 				k.consViol("nil", t, order, "constructor returned nil")
 				return
 			}
+			firstObj[t.key] = t1
 			if !t1.IdenticalTo(t2) {
 				k.consViol("twice-not-identical", t, order, "constructing twice gives non-identical types %v / %v", t1, t2)
 			} else if c29Ptr(t1) != c29Ptr(t2) {
@@ -425,6 +454,9 @@ func (k *c29Checker) consCheck(ts *c29Terms, order string, only string) {
 			k.consKey = ""
 			k.consViol("panics", t, order, "panics: %v", p)
 		}
+	}
+	if only == "" {
+		k.consDistinct(ts, u, list, firstObj, order)
 	}
 	// the two same-named declarations must be two types
 	if only == "" {
@@ -465,6 +497,78 @@ func (k *c29Checker) consCheck(ts *c29Terms, order string, only string) {
 		sa, sb := u.u.SliceOf(a), u.u.SliceOf(b)
 		if sa.IdenticalTo(sb) || sa.Elem().Kind() != r.Int || sb.Elem().Kind() != r.String {
 			k.consViol("redeclared-named-merged", ts.by["named(Dup,int)"], order, "SliceOf of the two same-named types: identical=%v elem kinds %v %v", sa.IdenticalTo(sb), sa.Elem().Kind(), sb.Elem().Kind())
+		}
+	}
+}
+
+// consDistinct: once every term has been constructed (the universe is warm and holds all of them at once),
+// (a) constructing a term again returns the object it returned the first time (no term evicted another one from the cache),
+// (b) different terms are different types: never one object, never IdenticalTo, and - for the exact ones - AssignableTo
+// exactly when reflect says so. Term keys are injective by construction (field names, tags, embedding, variadic flag,
+// direction, length and the declaration of named types are all part of the key).
+func (k *c29Checker) consDistinct(ts *c29Terms, u *c29U, list []*c29Term, firstObj map[string]xr.Type, order string) {
+	c := k.c
+	var terms []*c29Term
+	var objs []xr.Type
+	for _, t := range list {
+		if c.Expired() {
+			return
+		}
+		t1 := firstObj[t.key]
+		if t1 == nil {
+			continue
+		}
+		t := t
+		if p := catchPanic(func() {
+			again := t.build(u)
+			c.Eval(1)
+			if again == nil || c29Ptr(again) != c29Ptr(t1) {
+				k.consViol("warm-not-canonical", t, order, "constructing the term again after all other terms returns another object than the first time (identical: %v)", again != nil && again.IdenticalTo(t1))
+			}
+		}); p != nil {
+			k.consViol("panics", t, order, "constructing again panics: %v", p)
+		}
+		terms = append(terms, t)
+		objs = append(objs, t1)
+	}
+	byPtr := map[uintptr]int{}
+	for i, o := range objs {
+		if j, ok := byPtr[c29Ptr(o)]; ok {
+			k.consViol("distinct-terms-one-object", terms[i], order, "is the same object as the different type %s (String %q)", terms[j].key, o.String())
+		} else {
+			byPtr[c29Ptr(o)] = i
+		}
+	}
+	for i, a := range objs {
+		if c.Expired() {
+			return
+		}
+		ra := c29RT(terms[i])
+		for j, b := range objs {
+			if i == j {
+				continue
+			}
+			c.Eval(1)
+			var ident, assign bool
+			if p := catchPanic(func() { ident = a.IdenticalTo(b) }); p != nil {
+				k.consViol("identicalto-panics", terms[i], order, "IdenticalTo(%s) panics: %v", terms[j].key, p)
+				continue
+			}
+			if ident {
+				if i < j {
+					k.consViol("distinct-terms-identical", terms[i], order, "IdenticalTo(%s) = true: two different types (String %q / %q)", terms[j].key, a.String(), b.String())
+				}
+				continue
+			}
+			// struct types only (the others are covered pair by pair in the core of domain A): assignability between
+			// two different unnamed struct types follows identity
+			if rb := c29RT(terms[j]); ra != nil && rb != nil && ra.Kind() == r.Struct && rb.Kind() == r.Struct {
+				if p := catchPanic(func() { assign = a.AssignableTo(b) }); p != nil {
+					k.consViol("assignableto-panics", terms[i], order, "AssignableTo(%s) panics: %v", terms[j].key, p)
+				} else if want := ra.AssignableTo(rb); assign != want {
+					k.consViol("assignableto", terms[i], order, "AssignableTo(%s) = %v, reflect %v", terms[j].key, assign, want)
+				}
+			}
 		}
 	}
 }
